@@ -14,9 +14,9 @@ import (
 type ThrCase struct {
 	Chain      ck.ChainCfg `json:"chain"`
 	FeePerByte int64       `json:"fee_per_byte"`
-	ExecFee    int64       `json:"exec_fee"`   // argument of Policy.setExecFeeFactor (pico units from Faun on)
-	Sender     bool        `json:"sender"`     // the multisig account pays (otherwise it co-signs after a single-signature payer)
-	KeyOff     int         `json:"key_off"`    // offset into the key pool
+	ExecFee    int64       `json:"exec_fee"` // argument of Policy.setExecFeeFactor (pico units from Faun on)
+	Sender     bool        `json:"sender"`   // the multisig account pays (otherwise it co-signs after a single-signature payer)
+	KeyOff     int         `json:"key_off"`  // offset into the key pool
 	ScriptSize int         `json:"script_size"`
 	Scope      int         `json:"scope"`
 	Nonce      uint32      `json:"nonce"`
